@@ -43,7 +43,7 @@ impl Prop for C03 {
         "C03"
     }
     fn rule(&self) -> String {
-        "families: pfxpow (every prefix symbol x every power -3..3 on an SI core, as source, as target and prefix-to-prefix), direct (every ordered pair of unit names inside each commensurability class of the table x 5 magnitudes), prefix-src/prefix-tgt (every prefix spelling on a 30-unit core, single-reading words only: x <P>u to u = x*10^p exactly), power (a^n to b^n, n in -3..3, all class pairs), composite (products/quotients of 2-4 pairwise commensurable factors: km/h->m/s, kW*h->J, lb*ft/s^2->N, ...), and the table-free laws evaluated on the real code only: round trip ((x a to b) to a = x), via ((x a to c) to b = x a to b for all triples per class), scaling ((k x) a to b = k (x a to b)). Table oracle: SI value and dimensions preserved and the result is expressed in the target unit. Non-trivial = source and target differ; distinct = distinct query strings".into()
+        "families: pfxpow (every prefix symbol x every power -3..3 on an SI core, as source, as target and prefix-to-prefix), direct (every ordered pair of unit names inside each commensurability class of the table x 5 magnitudes), prefix-src/prefix-tgt (every prefix spelling on a 30-unit core, single-reading words only: x <P>u to u = x*10^p exactly), power (a^n to b^n, n in -3..3, all class pairs), composite (products/quotients of 2-4 pairwise commensurable factors: km/h->m/s, kW*h->J, lb*ft/s^2->N, ...), and the table-free laws evaluated on the real code only: round trip ((x a to b) to a = x), via ((x a to c) to b = x a to b for all triples per class) and chain (x a to c to b, unparenthesised); composites that name the same units on both sides with the powers distributed differently (ft*in^2 to ft^2*in), scaling ((k x) a to b = k (x a to b)). Table oracle: SI value and dimensions preserved and the result is expressed in the target unit. Non-trivial = source and target differ; distinct = distinct query strings".into()
     }
     fn assumptions(&self) -> Vec<String> {
         vec!["unit scales from the independent table (documented meanings); the table-free laws need no table".into(), "offset scales are C09's subject".into()]
@@ -72,6 +72,8 @@ impl Prop for C03 {
                 for b in names {
                     for c in &mids {
                         sink(Case::with("via", format!("(7.5 {a} to {c}) to {b}"), serde_json::json!({"a": a, "b": b, "c": c})));
+                        // the same without parentheses: a chain of casts
+                        sink(Case::with("chain", format!("7.5 {a} to {c} to {b}"), serde_json::json!({"a": a, "b": b, "c": c})));
                     }
                 }
             }
@@ -164,6 +166,19 @@ impl Prop for C03 {
                     comp.push((format!("{m}/{a}*{s}^2"), "Pa".to_string()));
                     comp.push((format!("{m}/{a}/{s}^2"), "Pa".to_string()));
                     comp.push((format!("{m}*{a}^2/{s}^3"), "W".to_string()));
+                }
+            }
+        }
+        // the same unit names on both sides, powers distributed differently (ft*in^2 vs ft^2*in)
+        for (_, names) in &cl {
+            let k: Vec<&&str> = names.iter().take(5).collect();
+            for u in &k {
+                for v in &k {
+                    if u != v {
+                        comp.push((format!("{u}*{v}^2"), format!("{u}^2*{v}")));
+                        comp.push((format!("{u}^2/{v}"), format!("{v}^2/{u}")));
+                        comp.push((format!("{u}^3/{v}^2"), format!("{v}^3/{u}^2")));
+                    }
                 }
             }
         }
@@ -261,7 +276,7 @@ impl Prop for C03 {
                 }
                 fw::pass(nontrivial, fw::hash_str(&si.short()))
             }
-            "via" => {
+            "via" | "chain" => {
                 // (x a to c) to b  ==  x a to b, both evaluated by the tool
                 let direct = obs::eval_one(env.db(), &format!("7.5 {a} to {b}"));
                 match direct {
